@@ -155,15 +155,10 @@ theorem priceable_total_le_money (X : Input) (stable exhaustive : Bool) (E : Exa
     (hW : X.W.Sublist X.C) : X.total ≤ (X.N.length : Rat) * X.b :=
   exact_total_le_money X stable exhaustive E hW
 
-/-- Equal Shares outcomes are priceable (without the exhaustiveness requirement) when every approved project has
-    positive utility — stated here, proved for the recorded run under C07; the zero-utility corner is finding K1 -/
-def mes_priceable_FullStatement : Prop :=
-  ∀ (I : Inst) (apps : List (Pid → Bool)) (u : Nat → Pid → Rat) (order : List Pid → Except Err (List Pid)) (W : List Pid),
-    apps ≠ [] → 0 < I.budget → I.projects.Nodup → (∀ p ∈ I.projects, 0 ≤ I.cost p) →
-    (∀ i p, 0 ≤ u i p) →
-    (∀ i (h : i < apps.length) p, p ∈ I.projects → (0 < u i p ↔ apps[i] p = true)) →
-    MES.run { vs := List.range apps.length, m := fun _ => 1, u := u } I [] order = .ok W →
-    Priceable I.projects I.cost I.budget W apps false false
+/- Equal Shares outcomes are priceable (without the exhaustiveness requirement) when utilities are positive exactly on
+   the approved projects: proved as `mes_priceable` (`trace_is_price_system`, `mes_priceable_tie`, `mes_priceable_cost_sat`)
+   in PabuProofs/Properties/C12Mes.lean; the zero-utility corner (finding K1) is `mes_priceable_zero_cost_counterexample`
+   there.  (The former `def mes_priceable_FullStatement` is replaced by those theorems.) -/
 
 /-! ### the hypotheses are satisfiable: two voters share the cost of one project; a second project stays out -/
 
